@@ -99,13 +99,26 @@ Diff(a, b, loc) ==
        UNION {Diff(a.it[i], b.it[i], Append(loc, [k |-> "", i |-> i])) : i \in 1..Len(a.it)}
   ELSE {loc}
 
+\* the same, not descending below a location where the new state holds the (fresh) new value v: a container
+\* replaced by a container is ONE replacement
+RECURSIVE DiffV(_, _, _, _)
+DiffV(a, b, loc, v) ==
+  IF a = b THEN {}
+  ELSE IF b = v THEN {loc}
+  ELSE IF IsMap(a) /\ IsMap(b) THEN
+       UNION {DiffV(a.kv[k], b.kv[k], Append(loc, [k |-> k, i |-> 0]), v) : k \in (DOMAIN a.kv) \cap (DOMAIN b.kv)}
+       \cup {Append(loc, [k |-> k, i |-> 0]) : k \in ((DOMAIN a.kv) \ (DOMAIN b.kv)) \cup ((DOMAIN b.kv) \ (DOMAIN a.kv))}
+  ELSE IF IsList(a) /\ IsList(b) /\ Len(a.it) = Len(b.it) THEN
+       UNION {DiffV(a.it[i], b.it[i], Append(loc, [k |-> "", i |-> i]), v) : i \in 1..Len(a.it)}
+  ELSE {loc}
+
 LastStep(loc) == loc[Len(loc)]
 \* the (key-)location of the k entry that holds the changed value: either loc itself
 \* (ends in key k) or its parent (loc is a member of the list stored under k)
 EntryLoc(loc) == IF LastStep(loc).i = 0 THEN loc ELSE Front(loc)
 \* val is assumed fresh (occurs nowhere in pre), so every replacement is visible in Diff
 UpdateFrame(pre, post, cnt, key, val, path, conds) ==
-  LET D == Diff(pre, post, <<>>) IN
+  LET D == DiffV(pre, post, <<>>, val) IN
   /\ Cardinality(D) = cnt                      \* the count is the number of replaced values
   /\ (cnt = 0 => post = pre)
   /\ \A loc \in D :
